@@ -516,6 +516,10 @@ def main():
         if not remaining:
             continue
         rtop = [x for x in remaining if x in top]
+        if not rtop and not reproduced and getattr(spec, 'AUX_VIOLATION', False):
+            # no native oracle exists for this property: an inductive obligation that is discharged on the unchanged tree and now
+            # fails is reported (DESIGN §4), marked no-failing-input-found
+            rtop = remaining
         if not rtop and not reproduced:
             undecided.append('%s: auxiliary obligation(s) %s failed, all top-level obligations hold, no concrete '
                              'failing input found' % (r.proof.name, ','.join(n for n, _ in remaining[:4])))
